@@ -172,7 +172,9 @@ where
         Ok(Self {
             reader,
             max_lit: header.max_var_index * 2 + 1,
-            code: (header.input_count + 1) * 2,
+            // This can only wrap around when the inputs use up every variable, in which case
+            // there is no latch or and gate left that could refer to it.
+            code: header.input_count.wrapping_add(1).wrapping_mul(2),
             header,
             _lit_builder: std::marker::PhantomData,
         })
@@ -844,7 +846,9 @@ where
             header.fairness_constraint_count,
         ];
 
-        self.code = (header.input_count + 1) * 2;
+        // This can only wrap around when the inputs use up every variable, in which case there
+        // is no latch or and gate left that could refer to it.
+        self.code = header.input_count.wrapping_add(1).wrapping_mul(2);
 
         let mut fields = fields.as_slice();
 
